@@ -462,6 +462,16 @@ def tok_literal(rec, prefix, default):
             if k is None or (lab in ov and rec["known_tags"].get(node.id) is None):
                 k = ov.get(lab, k)
             variant = rec.get("lit_variant", {}).get(lab, 0)
+            if k == "Int" and m is not None and not rec.get("no_model_ints"):
+                # the path may need a particular integer (an extreme one): take the model's value
+                try:
+                    iv = m.eval(z3.BitVec(f"{node.label}_int", 64), model_completion=True).as_long()
+                    iv = iv - (1 << 64) if iv >> 63 else iv
+                    if iv >= 0:
+                        return str(iv)
+                    return "((0 - 9223372036854775807) - 1)" if iv == -(1 << 63) else f"(0 - {-iv})"
+                except Exception:
+                    pass
             return lit_for(k, i, variant) or (str(10 + i) if default == "1" else default)
     return default
 
@@ -637,14 +647,15 @@ def snippet_alternatives(P, rec, names, ns_paths, limit=8):
     for lab in agg_labs[:2]:
         combos += [({}, {lab: 1})]
     for bv in base_variants:
-        for ko, lv in combos:
-            rec.update(bv)
-            rec["kind_override"], rec["lit_variant"] = ko, lv
-            sn = snippet(P, rec, names, ns_paths)
-            if sn is not None and sn not in out:
-                out.append(sn)
-            if len(out) >= limit:
-                break
-    for k in ("hint_type", "kind_override", "lit_variant"):
+        for no_model_ints in (False, True):
+            for ko, lv in combos:
+                rec.update(bv)
+                rec["kind_override"], rec["lit_variant"], rec["no_model_ints"] = ko, lv, no_model_ints
+                sn = snippet(P, rec, names, ns_paths)
+                if sn is not None and sn not in out:
+                    out.append(sn)
+                if len(out) >= limit:
+                    break
+    for k in ("hint_type", "kind_override", "lit_variant", "no_model_ints"):
         rec.pop(k, None)
     return out
